@@ -450,3 +450,74 @@ func (c *Ctx) CheckLocks(rule string, spec *LockSpec) {
 	c.Sites += nAcc
 	c.Note("LOCK %s: %d functions analysed, %d guarded accesses", spec.Mutex, len(infos), nAcc)
 }
+
+// CheckLockPairs decides the release side of a lock discipline: in every source function of the
+// package, each acquisition of the mutex (Lock / RLock on a value whose field spec is mutex) is
+// released on all paths to a return — by the matching Unlock / RUnlock call, or by a deferred one
+// registered on the way (directly, or inside a deferred function literal). One obligation per
+// acquisition site, keyed by function and ordinal. Functions listed in handOver return with the
+// lock held on purpose (name -> reason) and are recorded as such.
+func (c *Ctx) CheckLockPairs(rule, pkg, mutex string, handOver map[string]string) {
+	for _, fn := range c.P.SrcFuncs(pkg) {
+		if fn.Blocks == nil {
+			continue
+		}
+		n := 0
+		for _, b := range fn.Blocks {
+			for _, in := range b.Instrs {
+				if _, isDefer := in.(*ssa.Defer); isDefer {
+					continue
+				}
+				if _, isGo := in.(*ssa.Go); isGo {
+					continue
+				}
+				op, ok := mutexOp(in, mutex)
+				if !ok || (op != "Lock" && op != "RLock") {
+					continue
+				}
+				n++
+				c.Touch(fn)
+				key := fmt.Sprintf("%s %s#%d", FuncName(fn), op, n)
+				if why, ok := handOver[FuncName(fn)]; ok {
+					c.Ob(rule, key, true, in.Pos(), "returns with the lock held on purpose: "+why)
+					continue
+				}
+				want := "Unlock"
+				if op == "RLock" {
+					want = "RUnlock"
+				}
+				releases := func(x ssa.Instruction) bool {
+					if d, isDefer := x.(*ssa.Defer); isDefer {
+						if o, ok := mutexOp(d, mutex); ok && o == want {
+							return true
+						}
+						// defer func() { ...Unlock()... }()
+						if mc, isMC := d.Call.Value.(*ssa.MakeClosure); isMC {
+							if cl, isFn := mc.Fn.(*ssa.Function); isFn {
+								for _, cb := range cl.Blocks {
+									for _, ci := range cb.Instrs {
+										if o, ok := mutexOp(ci, mutex); ok && o == want {
+											return true
+										}
+									}
+								}
+							}
+						}
+						return false
+					}
+					if _, isGo := x.(*ssa.Go); isGo {
+						return false
+					}
+					o, ok := mutexOp(x, mutex)
+					return ok && o == want
+				}
+				hit, path := Search(After(in), IsReturn, SearchOpt{Barrier: releases})
+				detail := "every path from the " + op + " to a return releases the lock (" + want + " or a deferred " + want + ")"
+				if hit != nil {
+					detail += "; a return at " + c.P.Pos(InstrPos(hit)) + " is reached with the lock held, path " + DescribePath(c.P, fn, path)
+				}
+				c.Ob(rule, key, hit == nil, in.Pos(), detail)
+			}
+		}
+	}
+}
